@@ -37,7 +37,6 @@ ASSUMPTIONS = [
     "LPDDR4 column = address[9:2]; CAS WCK-sync operand: bare adapter exactly as its docstring says, inside LPDDR5PHY either the matching sync type or none (WCK state machine is out of scope)",
     "LPDDR5 MPC with DFI address 0 (the controller's ZQCS) is mapped by commands.py to MPC ZQCal Latch (0x86): taken from the code, exercised but not judged",
     "LPDDR4 MPC op codes RD FIFO / RD DQ CAL / WR FIFO (need a trailing CAS-2) are excluded from the random campaign and judged by the exhaustive MPC shard only",
-    "the ':history' clause C20.l4.extended_check_history is assigned with a label model of the suspected cause; the label never decides pass/fail, only the clause name of a failure",
     "violations are confirmed on stock migen.sim before being reported; fastsim alone never produces a verdict",
 ]
 
@@ -99,24 +98,6 @@ def case_strategy(dev, tier):
 
 
 # ------------------------------------------------------------------------------------------------ oracle
-def restart_model_sent(case, info):
-    """LABEL ONLY (never a verdict): which commands would be sent if the extended check forgot, at every cycle boundary,
-    what had been decided before the previous cycle.  Used to give such findings a stable key."""
-    pos, meaning = info["pos"], info["meaning"]
-    valid = {s for s, m in zip(pos, meaning) if m is not None}
-    sent = {}
-    cycles = sorted(set(s // 8 for s in pos))
-    for c in cycles:
-        h = {}
-        for p in range(-8, 8):
-            s = c * 8 + p
-            lo = max(-8, p - 3)
-            h[p] = (s in valid) and not any(h.get(q) for q in range(lo, p))
-        for p in range(8):
-            sent[c * 8 + p] = h[p]
-    return [bool(sent.get(s)) for s in pos]
-
-
 def _ctx(case, info, i):
     spec = cc.DEVICES[case["dev"]]
     nph = cc.NPHASES[spec["fam"]]
@@ -148,15 +129,8 @@ def compare(case, run, dec, exp, info):
     D = {}
     for d in dec:
         D.setdefault(d["t"], d)
-    rs = restart_model_sent(case, info) if (fam == "l4" and spec["ext"]) else None
 
     def out(symptom, key, what, slot):
-        """findings on an extended-check device whose input contains, up to the failing slot, a command the label model decides
-        differently get their own clause (one root cause, many symptoms)"""
-        if rs is not None and any(a != b and s <= slot + 4 for a, b, s in zip(rs, info["sent"], info["pos"])):
-            return [dict(clause="C20.l4.extended_check_history", key="%s:%s" % (dev, symptom),
-                         what=what + " [input class: the previous cycle holds a suppressed command whose suppressor sits in the cycle before it, "
-                                     "i.e. the extended check's per-cycle recomputation of 'actually sent' differs from what was really sent]")]
         return [dict(clause="C20.%s.%s" % (fam, symptom), key=key, what=what)]
     for t in sorted(set(E) | set(D)):
         d, e = D.get(t), E.get(t)
